@@ -42,6 +42,8 @@ for k in range(39):
                        clauses=["after every operation size == 2 + sum(name+2+value+2) over the view", "view of the custom header; other header untouched",
                                 "serializer writes exactly `size` bytes, all inside the reserved allocation", "wire image"],
                        tier="quick" if k in QUICK_HIST else "thorough", **HB))
+# schedules B / C (an EMPTY value in the first / second operation, harness/C03/headers.rs) are written but NOT registered: the histories where an
+# append follows an empty value end in "CBMC out of memory" (measured: b_k04, c_k13), so "append to an empty value" is outside the enumerated states.
 RB = dict(crate="ohkami", strength="bounded", timeout=900, unwindset=UW, tier="quick")
 HARNESSES += [
     H("c03_complete_204_contract", functions=["response::Response::complete"], clauses=["status 204 => no Content-Length, Content::None, size updated; for every prior (Content-Length present?, body present?)"],
